@@ -6,7 +6,8 @@
   theorems are proved for.
 
   * `FTy` / `FVal`      the type and value universe (structs, pointers, map[string]T, any, basics,
-                        and slices / funcs / channels as opaque leaves `opq`)
+                        slices / funcs / channels as opaque leaves `opq`, non-empty interfaces
+                        `iface name impls` with the spellings of the types implementing them)
   * `take`              `fieldMap` + `takeOne`: extraction along a source path
   * `assign`            `assignOne`: assignment along a target path, instantiating pointers and
                         maps on the way, expanding `any` to `map[string]any`
@@ -46,6 +47,10 @@ inductive FTy where
   | map (t : FTy)                       -- map[string]t
   | struct (name : String) (fs : FFields)
   | opq (k : OKind) (name : String)     -- an opaque leaf type, identified by its Go spelling
+  /-- a non-empty interface type (`fmt.Stringer`, any named interface other than `any`);
+      `impls` = the Go spellings of the concrete types of the universe that implement it
+      (`reflect.Type.Implements`) -/
+  | iface (name : String) (impls : List String)
   deriving DecidableEq, Repr, Inhabited
 inductive FFields where
   | nil
@@ -82,6 +87,7 @@ def zero : FTy → FVal
   | .map _ => .nil
   | .struct _ fs => .obj (zeroFields fs)
   | .opq _ _ => .nil
+  | .iface _ _ => .nil
 def zeroFields : FFields → FKVs
   | .nil => .nil
   | .cons n t r => .cons n (zero t) (zeroFields r)
@@ -122,8 +128,33 @@ def tail : FKVs → FKVs
 
 end FKVs
 
-/-- `reflect.Type.AssignableTo` in this universe: identical types, or the target is `any` -/
-def assignable (src dst : FTy) : Bool := dst == .any || src == dst
+/-- the Go spelling of a type (`reflect.Type.String()` without the package), the key of the
+    `impls` lists -/
+def tyName : FTy → String
+  | .str => "string"
+  | .int => "int"
+  | .any => "interface {}"
+  | .ptr t => "*" ++ tyName t
+  | .map t => "map[string]" ++ tyName t
+  | .struct n _ => n
+  | .opq _ n => n
+  | .iface n _ => n
+
+/-- an interface type: `any` or a non-empty interface (`reflect.Interface` kind) -/
+def isIface : FTy → Bool
+  | .any | .iface _ _ => true
+  | _ => false
+
+/-- `src.Implements(dst)` for a non-empty interface `dst`: concrete types only (the universe has
+    no interface whose method set includes another non-empty interface's) -/
+def implements (src dst : FTy) : Bool :=
+  match dst with
+  | .iface _ impls => !isIface src && impls.contains (tyName src)
+  | _ => false
+
+/-- `reflect.Type.AssignableTo` in this universe: identical types, the target is `any`, or the
+    target is a non-empty interface the source implements -/
+def assignable (src dst : FTy) : Bool := dst == .any || src == dst || implements src dst
 
 /-- the kinds for which the code accepts an untyped nil (`reflect.Map, Slice, Ptr, Interface`:
     the run-time checkers of `validateFieldMapping`, `checkAndExtractToField`,
@@ -131,19 +162,27 @@ def assignable (src dst : FTy) : Bool := dst == .any || src == dst
 def nilable : FTy → Bool
   | .any | .ptr _ | .map _ => true
   | .opq .slice _ => true
+  | .iface _ _ => true
   | _ => false
 
 /-- what is written into a slot of static type `st`: `none` = not storable -/
 def store (st : FTy) : Taken → Option FVal
   | none => if nilable st then some .nil else none
   | some (ty, v) =>
-    if assignable ty st then some (if st = .any then .box ty v else v) else none
+    if assignable ty st then some (if isIface st then .box ty v else v) else none
 
-/-- the interface value read out of a slot of static type `st` -/
+/-- the interface value read out of a slot of static type `st`.  (A value of a non-empty
+    interface type always has a dynamic type that implements it; a `box` that does not — no such
+    value is ever produced by the model or sent by the harness — reads as the nil interface.) -/
+def fits (ty st : FTy) : Bool :=
+  match st with
+  | .iface _ _ => implements ty st
+  | _ => true
+
 def unstore (st : FTy) (v : FVal) : Taken :=
-  if st = .any then
+  if isIface st then
     match v with
-    | .box ty x => some (ty, x)
+    | .box ty x => if fits ty st then some (ty, x) else none
     | _ => none
   else some (st, v)
 
@@ -316,7 +355,7 @@ def takeFrom (f : TakeFacts) (a : Taken) (viaIface : Bool) : Path → Except GEr
   | s :: r =>
     match takeStep f a viaIface s with
     | .error e => .error e
-    | .ok (st, v) => takeFrom f (unstore st v) (st == .any) r
+    | .ok (st, v) => takeFrom f (unstore st v) (isIface st) r
 
 /-- extraction of one mapping's source path from a predecessor output of static type `t` -/
 def take (f : TakeFacts) (t : FTy) (v : FVal) (p : Path) : Except GErr Taken :=
@@ -450,9 +489,21 @@ structure ValidateFacts where
   /-- the run-time checker installed for a source path that crosses an interface before its last
       segment tests `reflect.TypeOf(a) == nil` before it calls a method on it -/
   ifaceCheckerGuardsNil : Bool
+  /-- `checkAndExtractFieldType` reports a LAST path segment applied to an interface type other
+      than `any` as an intermediate interface, like every earlier segment (what is below is known
+      only at request time: a source path gets the run-time checker, a target path is refused —
+      nothing can be instantiated below a non-empty interface); without it the interface type
+      itself is taken for the type of the slot -/
+  lastSegmentBelowIfaceIsIntermediate : Bool
+  /-- `checkAndExtractFieldType` follows ONE pointer level in front of a struct (what `takeOne`
+      and `checkAndExtractToField` walk); a pointer to a pointer is not walked -/
+  derefsOnePointerLevel : Bool
   deriving DecidableEq, Repr
 
-/-- `checkAndExtractFieldType`: `(type reached, intermediate interface)`; `none` = error -/
+/-- `checkAndExtractFieldType`: `(type reached, intermediate interface)`; `none` = error.  A
+    segment applied to an interface type is an "intermediate interface"; the one exception is a
+    last segment below `any` (a target there is a key of the `map[string]any` the hole is expanded
+    to, a source gets the `assignableTypeMay` checker against `any`). -/
 def extractTy (rejectTrailing : Bool) : FTy → Path → Option (FTy × Bool)
   | t, [] => some (t, false)
   | t, s :: r =>
@@ -466,9 +517,43 @@ def extractTy (rejectTrailing : Bool) : FTy → Path → Option (FTy × Bool)
       | none =>
         if r.isEmpty then
           (if t = .any then some (t, false)
+           else if isIface t then some (t, true)
            else if rejectTrailing then none else some (t, false))
-        else if t = .any then some (.any, true)
+        else if isIface t then some (t, true)
         else none
+
+/-- all pointer levels in front of a struct removed (`for extracted.Kind() == reflect.Ptr`) -/
+def structOfDeep : FTy → Option FFields
+  | .struct _ fs => some fs
+  | .ptr t => structOfDeep t
+  | _ => none
+
+/-- `checkAndExtractFieldType` as a function of the two facts above: `ifaceLast = false` = a last
+    segment below any interface is let through with the interface type as the slot type,
+    `oneDeref = false` = every pointer level is removed statically.  `extractTyG r true true` is
+    `extractTy r` (`extractTyG_eq`, Proofs/C15). -/
+def extractTyG (rejectTrailing ifaceLast oneDeref : Bool) : FTy → Path → Option (FTy × Bool)
+  | t, [] => some (t, false)
+  | t, s :: r =>
+    match t with
+    | .map e => extractTyG rejectTrailing ifaceLast oneDeref e r
+    | _ =>
+      match (if oneDeref then structOf t else structOfDeep t) with
+      | some fs => match fieldTy fs s with
+        | some ft => extractTyG rejectTrailing ifaceLast oneDeref ft r
+        | none => none
+      | none =>
+        if r.isEmpty then
+          (if t = .any then some (t, false)
+           else if isIface t then some (t, ifaceLast)
+           else if rejectTrailing then none else some (t, false))
+        else if isIface t then some (t, true)
+        else none
+
+/-- the static path check the facts describe -/
+def extractTyF (vf : ValidateFacts) : FTy → Path → Option (FTy × Bool) :=
+  if vf.lastSegmentBelowIfaceIsIntermediate && vf.derefsOnePointerLevel then extractTy vf.rejectsTrailingSegment
+  else extractTyG vf.rejectsTrailingSegment vf.lastSegmentBelowIfaceIsIntermediate vf.derefsOnePointerLevel
 
 /-- `validateStructOrMap` -/
 def structOrMap : FTy → Bool
@@ -482,7 +567,9 @@ inductive Assignable where | must | mustNot | may
 def checkAssignable (src dst : FTy) : Assignable :=
   if dst = src then .must
   else if dst = .any then .must
+  else if implements src dst then .must
   else if src = .any then .may
+  else if isIface src then (if implements dst src then .may else .mustNot)
   else .mustNot
 
 structure Mapping where
@@ -497,7 +584,7 @@ structure Mapping where
     demand the same: a typed value must be assignable, an untyped nil is admitted exactly for the
     `nilable` kinds. -/
 def validateOne (vf : ValidateFacts) (pt st : FTy) (m : Mapping) : Option (Option (FTy × Bool)) :=
-  match extractTy vf.rejectsTrailingSegment pt m.src, extractTy vf.rejectsTrailingSegment st m.dst with
+  match extractTyF vf pt m.src, extractTyF vf st m.dst with
   | some (pf, pI), some (sf, sI) =>
     if sI then (if sf = .any then some none else none)
     else if pI then some (some (sf, true))
@@ -563,7 +650,7 @@ def checkerOf (vf : ValidateFacts) (pt st : FTy) (ms : List Mapping) (m : Mappin
   | some (ty, strict) =>
     if vf.checkerPerMapping then some (ty, strict)
     else match ms.getLast? with
-      | some l => match extractTy vf.rejectsTrailingSegment st l.dst with
+      | some l => match extractTyF vf st l.dst with
         | some (lt, _) => some (lt, strict)
         | none => some (ty, strict)
       | none => some (ty, strict)
